@@ -14,6 +14,9 @@ from harness.props.c02 import gen_cfg
 
 TARGETS = ["theories/Props/C15.vo", "theories/Proofs/GenEq_EvalSM.vo"]
 GENEQ = {"theories/Proofs/GenEq_EvalSM.vo": "EvalSM"}
+# units added to the cone after round 2 of the seeded changes (a refused / changed unit must be noticed by this check too)
+TARGETS = TARGETS + ["theories/Proofs/GenEq_Backend.vo"]
+GENEQ = dict(GENEQ, **{"theories/Proofs/GenEq_Backend.vo": "Backend"})
 ALLOWED_AXIOMS = []
 RULE = ("history = random sequence over 2-3 shared evaluators of: evaluate(input, options from all 16 combinations of result_all/save_group_times/"
         "log_times/verbose), resulting_metric_keys, construct an aggregator (log_times on/off), construct further evaluators/handlers, save_to_config; "
